@@ -48,10 +48,13 @@ def shp(s):
     return ",".join(str(v) for v in s) if len(s) else "-"
 
 
+_SALT = [0]   # value-sampling round (thorough repeats part (b) with fresh values)
+
+
 def _gen(label):
     import torch
     g = torch.Generator()
-    g.manual_seed(int.from_bytes(hashlib.sha256(f"{C.seed()}:{label}".encode()).digest()[:7], "big"))
+    g.manual_seed(int.from_bytes(hashlib.sha256(f"{C.seed()}:{_SALT[0]}:{label}".encode()).digest()[:7], "big"))
     return g
 
 
@@ -276,12 +279,24 @@ def kernel_families():
     }
 
 
+def raised(ctx, fam, pb, db, bs, e, replay):
+    """the batched module raises where every replica evaluates"""
+    ctx.case(f"b|{fam}|raises|{pb}|{db}")
+    ctx.count("b_raised")
+    ctx.notes.setdefault("b_raised", {})[f"{fam}:{pb}:{db}"] = f"{type(e).__name__}: {str(e)[:100]}"
+    key = f"{fam}:raises"
+    if fam.endswith("_priors") and len(pb) < len(bs):
+        key += ":param-batch-rank-below-broadcast-rank"
+    ctx.fail(key, f"{fam} param batch {pb}, data batch {db} (broadcast {tuple(bs)}): the batched module raises "
+             f"{type(e).__name__}: {str(e)[:200]} while every non-batched replica evaluates", replay)
+
+
 def each_replica(ctx, fam, what, pb, db, tab, out, make_replica_out, replay):
     """compare out[b] with the replica named by the driver for every batch element b"""
     import torch
     bs, pidx, didx = tab
     nontriv = len(pidx) > 1 or tuple(pb) != bs or tuple(db) != bs
-    ctx.case(f"b|{fam}|{what}|{pb}|{db}", nontrivial=nontriv,
+    ctx.case(f"b|{fam}|{what}|{pb}|{db}|{_SALT[0]}", nontrivial=nontriv,
              sample={"family": fam, "observable": what, "param_batch": list(pb), "data_batch": list(db), "broadcast": list(bs)})
     if tuple(out.shape[:len(bs)]) != bs:
         ctx.fail(f"{fam}:{what}:shape", f"{fam} param batch {pb}, data batch {db}: {what} has batch shape "
@@ -291,7 +306,10 @@ def each_replica(ctx, fam, what, pb, db, tab, out, make_replica_out, replay):
     for e, (pf, df) in enumerate(zip(pidx, didx)):
         want = make_replica_out(pf, df)
         if not close(flat[e], want):
-            ctx.fail(f"{fam}:{what}", f"{fam} param batch {pb}, data batch {db}: {what}[batch element {e}] differs from the "
+            key = f"{fam}:{what}"
+            if fam.endswith("_priors") and what in ("exact MLL", "ELBO") and len(pb) < len(bs):
+                key = f"{fam}:{what}:param-batch-rank-below-broadcast-rank"
+            ctx.fail(key, f"{fam} param batch {pb}, data batch {db}: {what}[batch element {e}] differs from the "
                      f"non-batched replica (parameter slice {pf}, data slice {df}): {err(flat[e], want)}",
                      dict(replay, element=e, param_slice=pf, data_slice=df))
             return
@@ -310,7 +328,7 @@ def part_b_kernels(ctx, T, pairs, names=None):
             randomize(kb, f"k:{fam}:{pb}")
             g = _gen(f"kx:{fam}:{pb}:{db}")
             x1, x2 = _randn(g, *db, n1, D_IN), _randn(g, *db, n2, D_IN)
-            rp = {"part": "kernel", "family": fam, "param_batch": list(pb), "data_batch": list(db)}
+            rp = {"part": "kernel", "family": fam, "param_batch": list(pb), "data_batch": list(db), "round": _SALT[0]}
             try:
                 with torch.no_grad(), warnings.catch_warnings():
                     warnings.simplefilter("ignore")
@@ -364,7 +382,7 @@ def part_b_means(ctx, T, pairs):
             x = _randn(_gen(f"mx:{fam}:{pb}:{db}"), *db, n, D_IN)
             with torch.no_grad():
                 out = m(x)
-            rp = {"part": "mean", "family": fam, "param_batch": list(pb), "data_batch": list(db)}
+            rp = {"part": "mean", "family": fam, "param_batch": list(pb), "data_batch": list(db), "round": _SALT[0]}
             if fam == "zero" and tuple(out.shape) != tab[0] + (n,):
                 # ZeroMean ignores its batch_shape when shaping the output: the value (0) is right for every replica
                 try:
@@ -401,7 +419,7 @@ def part_b_likelihoods(ctx, T, pairs):
                     noise=noise, learn_additional_noise=(fam == "fixed_noise_learned"), batch_shape=torch.Size(b)).double()
             lik = mk(pb, fixed)
             randomize(lik, f"likp:{fam}:{pb}")
-            rp = {"part": "likelihood", "family": fam, "param_batch": list(pb), "data_batch": list(db)}
+            rp = {"part": "likelihood", "family": fam, "param_batch": list(pb), "data_batch": list(db), "round": _SALT[0]}
             with torch.no_grad(), warnings.catch_warnings():
                 warnings.simplefilter("ignore")
                 try:
@@ -409,8 +427,7 @@ def part_b_likelihoods(ctx, T, pairs):
                     mcov = marg.covariance_matrix
                     mmean = marg.mean
                 except Exception as e:
-                    ctx.count("b_rejected")
-                    ctx.notes.setdefault("b_rejections", {})[f"{fam}:{pb}:{db}"] = f"{type(e).__name__}: {str(e)[:100]}"
+                    raised(ctx, "lik_" + fam, pb, db, tab[0], e, rp)
                     continue
             npb = 1
             for v in pb:
@@ -474,7 +491,7 @@ def part_b_exact(ctx, T, pairs):
                 return Model(tx_, ty_, lik, b, prior=prior).double()
             mod = build(pb, tx, ty)
             randomize(mod, f"exp:{pb}")
-            rp = {"part": "exact", "family": fam, "param_batch": list(pb), "data_batch": list(db)}
+            rp = {"part": "exact", "family": fam, "param_batch": list(pb), "data_batch": list(db), "round": _SALT[0]}
             obs = {}
             try:
                 with torch.no_grad(), gpytorch.settings.fast_computations(False, False, False), \
@@ -491,8 +508,7 @@ def part_b_exact(ctx, T, pairs):
                     pred = mod.likelihood(post)
                     obs["predictive covariance"] = pred.covariance_matrix
             except Exception as e:
-                ctx.count("b_rejected")
-                ctx.notes.setdefault("b_rejections", {})[f"{fam}:{pb}:{db}"] = f"{type(e).__name__}: {str(e)[:100]}"
+                raised(ctx, fam, pb, db, bs, e, rp)
                 continue
             cache = {}
 
@@ -569,14 +585,18 @@ def part_b_variational(ctx, T, pairs):
             npb = len(set(pidx)) and max(pidx) + 1
 
             def build(b, ind_):
-                return Model(ind_.clone(), b, prior=prior).double()
+                mdl = Model(ind_.clone(), b, prior=prior).double()
+                # the first training-mode call would otherwise overwrite the variational parameters with the prior
+                # plus *random* noise (initialize_variational_distribution): not a batched-vs-replica question
+                mdl.variational_strategy.variational_params_initialized.fill_(1)
+                return mdl
             mod = build(pb, ind)
             randomize(mod, f"varp:{pb}")
             with torch.no_grad():   # a valid (lower-triangular, positive diagonal) variational Cholesky factor
                 cv = mod.variational_strategy._variational_distribution.chol_variational_covar
                 cv.copy_(torch.tril(cv) * 0.3 + torch.eye(mi, dtype=torch.float64))
             lik = gpytorch.likelihoods.GaussianLikelihood().double()
-            rp = {"part": "variational", "family": fam, "param_batch": list(pb), "data_batch": list(db)}
+            rp = {"part": "variational", "family": fam, "param_batch": list(pb), "data_batch": list(db), "round": _SALT[0]}
             obs = {}
             try:
                 with torch.no_grad(), gpytorch.settings.fast_computations(False, False, False), \
@@ -588,8 +608,7 @@ def part_b_variational(ctx, T, pairs):
                     obs["KL"] = mod.variational_strategy.kl_divergence()
                     obs["ELBO"] = gpytorch.mlls.VariationalELBO(lik, mod, num_data=n)(qf, y)
             except Exception as e:
-                ctx.count("b_rejected")
-                ctx.notes.setdefault("b_rejections", {})[f"{fam}:{pb}:{db}"] = f"{type(e).__name__}: {str(e)[:100]}"
+                raised(ctx, fam, pb, db, bs, e, rp)
                 continue
             nslice = 1
             for v in pb:
@@ -653,7 +672,8 @@ def part_b_model_list(ctx, lines, recs):
             member_vals = []
             for i, (o, mdl) in enumerate(zip(outs, models)):
                 w = mdl(xs[i])
-                if not (torch.equal(o.mean, w.mean) and torch.equal(o.covariance_matrix, w.covariance_matrix)):
+                if not (torch.allclose(o.mean, w.mean, rtol=1e-13, atol=1e-14)
+                        and torch.allclose(o.covariance_matrix, w.covariance_matrix, rtol=1e-13, atol=1e-14)):
                     ctx.fail("model_list:outputs", f"IndependentModelList output {i} of {k} is not its member's output: "
                              f"{err(o.covariance_matrix, w.covariance_matrix)}", dict(rp, member=i))
                 member_vals.append(gpytorch.mlls.ExactMarginalLogLikelihood(mdl.likelihood, mdl)(w, ys[i]))
@@ -722,15 +742,14 @@ def correspondence(ctx, want_driver=True):
             A, B = torch.broadcast_tensors(torch.arange(np_).reshape(pb), torch.arange(nd_).reshape(db))
             if tuple(A.shape) != bs or A.reshape(-1).tolist() != pidx or B.reshape(-1).tolist() != didx:
                 ctx.broke("correspondence", "replicaTable vs torch.broadcast_tensors", f"{pb} {db}: {bs} {pidx} {didx}")
-        quickfams = None
-        if ctx.quick:
+        for rnd in range(1 if ctx.quick else 4):
+            _SALT[0] = rnd
             part_b_kernels(ctx, T, sel["kernels"])
-        else:
-            part_b_kernels(ctx, T, sel["kernels"], quickfams)
-        part_b_means(ctx, T, sel["means"])
-        part_b_likelihoods(ctx, T, sel["liks"])
-        part_b_exact(ctx, T, sel["exact"])
-        part_b_variational(ctx, T, sel["var"])
+            part_b_means(ctx, T, sel["means"])
+            part_b_likelihoods(ctx, T, sel["liks"])
+            part_b_exact(ctx, T, sel["exact"])
+            part_b_variational(ctx, T, sel["var"])
+        _SALT[0] = 0
         lines, recs = [], []
         part_b_model_list(ctx, lines, recs)
         part_a(ctx, lines, recs)
@@ -776,6 +795,7 @@ def replay(ctx, payload):
     import torch
     c = payload["case"]
     os.environ["VERIF_SEED"] = str(payload.get("seed", 0))
+    _SALT[0] = c.get("round", 0)
     torch.set_default_dtype(torch.float64)
 
     class Sub:
